@@ -65,8 +65,10 @@ def run(rep):
     # a proof cut by the harness watchdog under machine load is re-run alone with a generous limit before it is judged
     slow = {r['id'] for r in recs0 if r['raised'] == 'Watchdog'}
     if slow:
-        again = [dict(j, timeout_s=300) for j in jobs if j['id'] in slow]
-        redo = {r['id']: r for r in P.read_records(P.run_jobs(again, 'c03retry', nproc=4))}
+        # (at most 96 of them, six processes: a change that makes proofs loop must not make the check run for hours;
+        # what is not re-run stays a recorded 'raise')
+        again = [dict(j, timeout_s=150) for j in jobs if j['id'] in slow][:96]
+        redo = {r['id']: r for r in P.read_records(P.run_jobs(again, 'c03retry', nproc=6, chunk=8))}
         recs0 = [redo.get(r['id'], r) for r in recs0]
         rep.cov['watchdog_retries'] = len(slow)
     runs = defaultdict(list)
